@@ -7,14 +7,24 @@ use vh::util::*;
 use vrp_core::construction::heuristics::*;
 use vrp_core::models::problem::*;
 
+static SHIFT: std::sync::atomic::AtomicI64 = std::sync::atomic::AtomicI64::new(0);
+
+/// the last layer is the cost objective: undo the case's `cost_shift` (exact: powers of two)
+fn unshift(v: Vec<f64>) -> Vec<Value> {
+    let s = SHIFT.load(std::sync::atomic::Ordering::Relaxed) as i32;
+    let n = v.len();
+    v.into_iter().enumerate().map(|(i, x)| if i + 1 == n { t_out(x * (2.0f64).powi(s)) } else { t_out(x) }).collect()
+}
+
 fn cost_of(r: &InsertionResult) -> Value {
     match r {
-        InsertionResult::Success(s) => json!(s.cost.iter().map(t_out).collect::<Vec<_>>()),
+        InsertionResult::Success(s) => json!(unshift(s.cost.iter().collect())),
         InsertionResult::Failure(_) => Value::Null,
     }
 }
 
 fn run_case(case: &Value) -> Value {
+    SHIFT.store(if case["cost_shift"].is_null() { 0 } else { i64_of(&case["cost_shift"]) }, std::sync::atomic::Ordering::Relaxed);
     let routes_desc = case["routes"].as_array().unwrap();
     let free_desc = case["free"].as_array().cloned().unwrap_or_default();
     let route_singles: Vec<Vec<Arc<Single>>> = routes_desc
@@ -56,7 +66,7 @@ fn run_case(case: &Value) -> Value {
         .iter()
         .map(|it| {
             let full = step(InsertionResult::make_failure(), it);
-            let rc: Vec<Value> = goal.estimate(&MoveContext::route(&ctx.solution, it.0, it.1)).iter().map(t_out).collect();
+            let rc: Vec<Value> = unshift(goal.estimate(&MoveContext::route(&ctx.solution, it.0, it.1)).iter().collect());
             json!({"full": cost_of(&full), "rc": rc})
         })
         .collect();
